@@ -354,6 +354,15 @@ func EvalCond(c Cond, bind Bindings) (bool, error) {
 		default:
 			rel = EQ
 		}
+	case l.K == "t" && r.K == "t":
+		switch {
+		case l.T == r.T:
+			rel = EQ
+		case !l.T && r.T:
+			rel = LT
+		default:
+			rel = GT
+		}
 	default:
 		return false, evalErr{"comparison of " + l.K + " and " + r.K + " in " + c.String()}
 	}
